@@ -253,6 +253,91 @@ func grpcgunNetStrList(xs []string) string {
 }
 
 // grpcgunNetExtra is appended to the area's output by grpcGunExtra.
+// grpcgunNetAmmoFacts: how grpc/json turns a line into the pooled ammo object: into what the JSON is decoded, what
+// the pooled object is reset with, and what Reset does.
+func grpcgunNetAmmoFacts(ap, jp *packages.Package) (decodeInto, resetArgs, resetBody string) {
+	decodeInto, resetArgs, resetBody = "unrecognised", "unrecognised", "unrecognised"
+	if da := findFunc(jp, "decodeAmmo"); da != nil {
+		al := grpcgunNetAliases(jp, da)
+		var fresh types.Object
+		ast.Inspect(da.Body, func(x ast.Node) bool {
+			c, ok := x.(*ast.CallExpr)
+			if !ok {
+				return true
+			}
+			sel, ok := c.Fun.(*ast.SelectorExpr)
+			if !ok || sel.Sel.Name != "Unmarshal" || len(c.Args) != 2 {
+				return true
+			}
+			arg := c.Args[1]
+			if u, ok := arg.(*ast.UnaryExpr); ok && u.Op == token.AND {
+				o := ggObj(jp, u.X)
+				if v, ok := o.(*types.Var); ok && al[o] == "" && v.Parent() != jp.Types.Scope() {
+					// a local: declared with `var x T` (zero value) and not assigned before the call?
+					declared := false
+					ast.Inspect(da.Body, func(y ast.Node) bool {
+						if ds, ok := y.(*ast.DeclStmt); ok {
+							if gd, ok := ds.Decl.(*ast.GenDecl); ok {
+								for _, sp := range gd.Specs {
+									if vs, ok := sp.(*ast.ValueSpec); ok && len(vs.Values) == 0 {
+										for _, n := range vs.Names {
+											if jp.TypesInfo.Defs[n] == o {
+												declared = true
+											}
+										}
+									}
+								}
+							}
+						}
+						return true
+					})
+					_, _, n := grpcgunNetDefBefore(jp, da, o, c.Pos())
+					if declared && n == 0 {
+						decodeInto = "&$fresh (a zero-valued local of type " + v.Type().String()[strings.LastIndex(v.Type().String(), "/")+1:] + ")"
+						fresh = o
+					} else {
+						decodeInto = "&local assigned before"
+					}
+				} else {
+					decodeInto = "&" + grpcgunNetDescribe(jp, da, al, u.X, c.Pos(), 0)
+				}
+			} else {
+				decodeInto = grpcgunNetDescribe(jp, da, al, arg, c.Pos(), 0)
+			}
+			return true
+		})
+		if fresh != nil {
+			al[fresh] = "$fresh"
+		}
+		var resets []string
+		for _, c := range ggCallsSuffix(jp, da.Body, ".Reset") {
+			var as []string
+			for _, a := range c.Args {
+				as = append(as, grpcgunNetDescribe(jp, da, al, a, c.Pos(), 0))
+			}
+			recv := ""
+			if sel, ok := c.Fun.(*ast.SelectorExpr); ok {
+				recv = grpcgunNetDescribe(jp, da, al, sel.X, c.Pos(), 0)
+			}
+			resets = append(resets, recv+".Reset("+strings.Join(as, ", ")+")")
+		}
+		resetArgs = strings.Join(resets, ";")
+	}
+	if rs := ggMethod(ap, "Ammo", "Reset"); rs != nil {
+		al := grpcgunNetAliases(ap, rs)
+		var sts []string
+		for _, st := range rs.Body.List {
+			if as, ok := st.(*ast.AssignStmt); ok && len(as.Lhs) == 1 && len(as.Rhs) == 1 {
+				sts = append(sts, grpcgunNetDescribe(ap, rs, al, as.Lhs[0], as.Pos(), 0)+" = "+grpcgunNetDescribe(ap, rs, al, as.Rhs[0], as.Pos(), 0))
+			} else {
+				sts = append(sts, fmt.Sprintf("other statement %T", st))
+			}
+		}
+		resetBody = strings.Join(sts, ";")
+	}
+	return
+}
+
 func grpcgunNetExtra(t *tr, gp, sp *packages.Package) string {
 	var b strings.Builder
 	def := func(doc, name, typ, val string) {
